@@ -59,13 +59,12 @@ func (x *Exec) doCall(st *State, fr *Frame, in ssa.Instruction, call *ssa.CallCo
 	if st.calls == nil {
 		st.calls = map[string]int{}
 	}
+	x.callSiteObligations(st, fr, in, call, args)
+	st.calls[calleeName(call)]++
 	if b, ok := call.Value.(*ssa.Builtin); ok && !call.IsInvoke() {
-		st.calls[calleeName(call)]++
 		x.builtin(st, fr, in, b, call, args, k)
 		return
 	}
-	x.callSiteObligations(st, fr, in, call, args)
-	st.calls[calleeName(call)]++
 	if call.IsInvoke() {
 		recv := x.get(fr, call.Value)
 		x.invoke(st, fr, in, call, recv, args, k)
@@ -81,7 +80,13 @@ func (x *Exec) callSiteObligations(st *State, fr *Frame, in ssa.Instruction, cal
 	}
 	name := calleeName(call)
 	for _, cs := range x.fc.CallSites {
-		if cs.Callee != name {
+		want := cs.Callee
+		if i := strings.Index(want, "#"); i >= 0 {
+			// "callee#n": only the n-th call site of that callee in source order
+			if want[:i] != name || strconv.Itoa(x.eng.calleeOrdinal(fr.fn, in, name)) != want[i+1:] {
+				continue
+			}
+		} else if want != name {
 			continue
 		}
 		env := &Env{x: x, st: st, fr: fr, pos: in.Pos(), pkg: pkgOf(fr.fn), vars: map[string]Val{}, old: x.entryEnv}
@@ -149,7 +154,10 @@ func (x *Exec) canInline(fr *Frame, fn *ssa.Function) bool {
 	// only callees of the package under verification are inlined; calls across
 	// packages need a contract (else they are treated as unknown calls)
 	if tp := pkgOf(x.top); tp != nil && tp.Path() != p.Path() {
-		return false
+		// exception: tiny leaf functions (getters) of the repository are inlined across packages
+		if !x.eng.tinyLeaf(fn) {
+			return false
+		}
 	}
 	if fr.depth >= x.inlineDepth {
 		return false
@@ -557,19 +565,37 @@ func (x *Exec) assumeFrame(st, pre *State, fc *FuncContract, vars map[string]Val
 	}
 }
 
+// calleeFrameWithinCaller: a caller with a frame clause may only call callees
+// whose own frame is known and contained in it.
 func (x *Exec) calleeFrameWithinCaller(st, pre *State, fr *Frame, fc *FuncContract, vars map[string]Val, in ssa.Instruction) {
-	if len(x.fc.Assigns) == 1 && x.fc.Assigns[0] == "nothing" {
-		name := x.curFnName + "/assigns"
-		o := x.oblig(name, "frame", x.fc.Props, in.Pos(), "assigns nothing")
-		// callee may write: only acceptable if callee's own frame is fresh-only
-		ok := fc.HasAssign
-		for _, a := range fc.Assigns {
-			if a != "fresh" && a != "nothing" {
-				ok = false
+	name := x.curFnName + "/assigns"
+	pos := token.NoPos
+	if in != nil {
+		pos = in.Pos()
+	}
+	o := x.oblig(name, "frame", x.fc.Props, pos, "assigns "+strings.Join(x.fc.Assigns, ", "))
+	if !fc.HasAssign {
+		o.Text += " [callee " + fc.Key + " has no frame clause]"
+		x.check(st, o, "false")
+		return
+	}
+	for _, a := range fc.Assigns {
+		if a == "fresh" || a == "nothing" {
+			continue
+		}
+		covered := false
+		if strings.HasPrefix(a, "class:") {
+			cp := strings.TrimPrefix(a, "class:")
+			for _, b := range x.fc.Assigns {
+				if strings.HasPrefix(b, "class:") && strings.Contains(cp, strings.TrimPrefix(b, "class:")) {
+					covered = true
+				}
 			}
 		}
-		if !ok {
+		if !covered {
+			o.Text += " [callee " + fc.Key + " may write " + a + "]"
 			x.check(st, o, "false")
+			return
 		}
 	}
 }
@@ -779,6 +805,44 @@ func (x *Exec) modelExternal(st *State, fr *Frame, fn *ssa.Function, full string
 	case "(*sync.Mutex).Lock", "(*sync.Mutex).Unlock", "(*sync.RWMutex).Lock", "(*sync.RWMutex).Unlock", "(*sync.RWMutex).RLock", "(*sync.RWMutex).RUnlock":
 		x.lockOp(st, fr, in, full, args)
 		return ret()
+	case "sort.Strings", "sort.Ints", "sort.Float64s":
+		// elements are permuted in place; ghost flag sorted[arr] is set
+		if sl, ok := args[0].(Slice); ok {
+			x.frameCheckRef(st, fr, in, sl.Arr, "array (sorted in place)")
+			class := "E|" + typeKey(sl.Elem)
+			for c := range st.heap {
+				if strings.HasPrefix(c, class) {
+					st.heap[c] = "(store " + st.heap[c] + " " + sl.Arr + " " + smtSym(x.fresh("sortedcontents", sortOfInner(c, sl.Elem))) + ")"
+				}
+			}
+			if st.ghost == nil {
+				st.ghost = map[string]string{}
+			}
+			st.ghost["sorted"] = "(store " + x.ghostArr(st, "sorted") + " " + sl.Arr + " true)"
+			x.note("sort." + fn.Name() + ": contents of the slice unconstrained afterwards; ghost flag sorted(slice) set (not reset by later element writes)")
+			return ret()
+		}
+	case "sort.Sort", "sort.Stable":
+		// sort.Sort(sort.StringSlice(x)) / IntSlice: same effect as sort.Strings on the boxed slice
+		if iv, ok := args[0].(Iface); ok {
+			for _, tn := range []string{"sort.StringSlice", "sort.IntSlice"} {
+				t := x.eng.typeByName(tn)
+				if t == nil {
+					continue
+				}
+				id := strconv.Itoa(x.eng.typeID(t))
+				if sl, ok := x.unbox(iv, t).(Slice); ok {
+					if st.ghost == nil {
+						st.ghost = map[string]string{}
+					}
+					g := x.ghostArr(st, "sorted")
+					st.ghost["sorted"] = "(ite (= " + iv.Tag + " " + id + ") (store " + g + " " + sl.Arr + " true) " + g + ")"
+				}
+			}
+			x.note("sort.Sort: treated as sorting the boxed StringSlice/IntSlice in place (ghost flag sorted set); other sort.Interface values: heap havocked")
+			x.havocClasses(st, []string{"E|string", "E|int"})
+			return ret()
+		}
 	case "math.IsNaN":
 		if f, ok := args[0].(Flt); ok {
 			return ret(Bool{"(fp.isNaN " + f.T + ")"})
@@ -793,6 +857,17 @@ func (x *Exec) modelExternal(st *State, fr *Frame, fn *ssa.Function, full string
 		return ret(Iface{strconv.Itoa(x.eng.typeIDByName("context.backgroundCtx")), "1"})
 	}
 	return false
+}
+
+func (x *Exec) ghostArr(st *State, name string) string {
+	if st.ghost == nil {
+		st.ghost = map[string]string{}
+	}
+	if a, ok := st.ghost[name]; ok {
+		return a
+	}
+	st.ghost[name] = "((as const (Array Int Bool)) false)"
+	return st.ghost[name]
 }
 
 func (x *Exec) heldArr(st *State) string {
